@@ -10,7 +10,8 @@ RULE = ("[options reach the loop as the runner builds them: every case places ea
         "max_time placed exactly at the elapsed time after some round, and one tick below / above it (costs in whole ns, an "
         "extra of 999/1000/1001 ticks in that round), with and without skip_ext_time, explicit and tuned sizes, T in 1..4, "
         "per-thread clock offsets and skew so that the latest end is not the caller's, the other budget sometimes set around "
-        "it (min > max included); (2) random (n, s, min, max, skip, T) incl. zero and Duration::MAX; (3) skip_ext_time with "
+        "it (min > max included); (2) random (n, s, min, max, skip, T) incl. zero, Duration::MAX and durations of 2^64 ns and more whose "
+        "nanosecond count has small low 64 bits (multiples of 2^55 s, 2^63 s, u64::MAX s) on either bound; (3) skip_ext_time with "
         "rounds faster than 1 ns (the 1 ns floor decides the round count). The harness logs every timestamp the loop takes; "
         "the log drives the extracted model; the extracted c04_sb (rounds = least k with not continue_after k, computed "
         "declaratively from the logged timestamps) is evaluated on the implementation's output. "
@@ -25,11 +26,15 @@ CONSTS_USED = ["max_time_cmp_is_ge", "min_time_cmp_is_lt", "min_progress_picos",
 GENERATED_OBLIGATIONS = ["C04_loop_consts : max_time_cmp_is_ge = true /\\ min_time_cmp_is_lt = true /\\ min_progress_picos = 1000"]
 
 DMAX = "18446744073709551615:999999999"
+# at least 2^64 ns, with small low 64 bits of the nanosecond count (2^55 s = 5^9 * 2^64 ns): a conversion that
+# truncates nanoseconds to u64 turns these into 0 or a few ns
+HUGE = ["36028797018963968:0", "36028797018963968:5", "72057594037927936:0", "72057594037927936:1000",
+        "9223372036854775808:0", "9223372036854775808:3", "18446744073709551615:0", DMAX]
 
 
 def streams(tier, rng):
     big = tier != "quick"
-    n_aim, n_rand, n_floor = (450, 350, 120) if not big else (9000, 8000, 2500)
+    n_aim, n_rand, n_floor = (450, 420, 120) if not big else (9000, 8000, 2500)
     aimed, tries = [], 0
     while len(aimed) < n_aim and tries < 30 * n_aim:
         tries += 1
@@ -49,6 +54,13 @@ def streams(tier, rng):
             for skip in ("0", "1"):
                 rand.append(dict(mode="b", n=3, s=2, T=T, min=mn, max=mx, skip=skip, g=100, c=250, d=50))
                 rand.append(dict(mode="b", n=2, s="-", T=T, min=mn, max=mx, skip=skip, g=100, c=250, d=50, p=3))
+    # huge budgets: a huge ceiling never binds; a huge floor keeps the run going until the (small) ceiling
+    for T in (1, 2):
+        for h in HUGE:
+            for skip in ("0", "1"):
+                rand.append(dict(mode="b", n=3, s=2, T=T, min="-", max=h, skip=skip, g=100, c=250, d=50))
+                rand.append(dict(mode="b", n=2, s=1, T=T, min=h, max="0:9", skip=skip, g=100, c=1000, d=50))
+                rand.append(dict(mode="b", n=2, s="-", T=T, min="0:3", max=h, skip=skip, g=100, c=250, d=50, p=3))
     while len(rand) < n_rand:
         c = L.rand_case(rng, timed=True)
         c_ps = max(1, c["c"] * L.PS // c["f"])
@@ -56,13 +68,13 @@ def streams(tier, rng):
         k = rng.random()
         if k < 0.4:
             c["max"] = L.ns(rng.randrange(0, scale * 4 + 2))
-        elif k < 0.45:
-            c["max"] = rng.choice(["0:0", DMAX])
+        elif k < 0.5:
+            c["max"] = rng.choice(["0:0", DMAX] + HUGE)
         k = rng.random()
         if k < 0.4:
             c["min"] = L.ns(rng.randrange(0, scale * 4 + 2))
-        elif k < 0.45:
-            c["min"] = rng.choice(["0:0", DMAX]) if c.get("max", "-") != "-" else "0:0"
+        elif k < 0.5:
+            c["min"] = rng.choice(["0:0", DMAX] + HUGE) if c.get("max", "-") not in ("-", DMAX, *HUGE) else "0:0"
         if L.fits(c):
             rand.append(c)
     floor = []
